@@ -118,3 +118,9 @@ verus_unit("oodv", "oodv", ["C03", "C06", "C12"], [
     "TraceOodFrame::new",
     "Commitments::parse (every number of trace segments and FRI layers, every byte content: Ok exactly when the bytes are num_trace_segments + 1 + num_fri_layers + 1 digest encodings and nothing else; the three results are those digests in order)",
     "Table::from_bytes (every admissible row / column count, every byte content: the first rows * cols element encodings, row-major; Err exactly when they cannot be decoded; the four assertions never fire for counts in 1..=255)"])
+
+
+verus_unit("proofserdev", "proofserdev", ["C12", "C03"], [
+    "<Proof as Serializable>::write_into (appends the component encodings in the documented order: context, number of unique queries, commitments, one Queries per trace segment, constraint queries, OOD frame, FRI proof, proof-of-work nonce, optional GKR proof)",
+    "<Proof as Deserializable>::read_from (decodes them in the same order; reads exactly as many trace-query sets as the decoded context has trace segments; Err exactly when a component decoder fails)",
+    "theorem_proof_roundtrip (specification level: for every proof whose number of trace-query sets equals its context's number of trace segments, decoding what write_into appended returns the same proof and leaves exactly the following bytes - relative to the component round trips, which are hypotheses here and obligations of the Kani / Verus units of C12 for the concrete component types)"])
